@@ -178,6 +178,23 @@ fn main() {
             let blob = args.get(8).is_some_and(|s| s == "blob");
             std::fs::create_dir_all(&outdir).expect("outdir");
             for seed in seed0..seed0 + count {
+                // two runs out of three share ONE cpu between all their threads: the scheduler then
+                // preempts threads inside the crate's critical sections far more often than on an
+                // idle multi-core machine, which is where unprotected windows show
+                // SAFETY: plain sched_setaffinity on this process
+                unsafe {
+                    let ncpu = libc::sysconf(libc::_SC_NPROCESSORS_ONLN).max(1) as usize;
+                    let mut set: libc::cpu_set_t = std::mem::zeroed();
+                    libc::CPU_ZERO(&mut set);
+                    if seed % 3 == 0 {
+                        for c in 0..ncpu {
+                            libc::CPU_SET(c, &mut set);
+                        }
+                    } else {
+                        libc::CPU_SET((seed as usize) % ncpu, &mut set);
+                    }
+                    libc::sched_setaffinity(0, std::mem::size_of::<libc::cpu_set_t>(), &set);
+                }
                 let dir = fresh_dir(&scratch, &format!("conc-{seed}"));
                 // a panic that escapes the worker threads (e.g. a poisoned lock after a thread of
                 // the crate panicked) is a result of this run, not a crash of the harness
